@@ -337,6 +337,26 @@ func (e *engine) blockSignChecks(rng *rand.Rand, chunk, i int, kind, sc string, 
 		e.viol("block-verify-accepts-other-block:"+kind, fmt.Sprintf("signature of one block verifies for a block with different content (panic=%v)", p),
 			w(map[string]any{"sig": hx(sig1), "other_block": other.J()}))
 	}
+	// the same on a block object that already carries a local signature (k2's): verification must
+	// not depend on what the object has stored
+	sig3 := append([]byte(nil), b3.Signature()...)
+	e.r.Count("block.verify_on_signed_object_cases", 1)
+	n++
+	if err, p := verify(b3, k2.pub, sig3); err != nil || p != nil {
+		e.viol("block-verify-rejects-own-signature:"+kind, fmt.Sprintf("Verify(signer's key, own stored signature) on the signed object fails: err=%v panic=%v", err, p), w(map[string]any{"sig": hx(sig3)}))
+	}
+	n++
+	if err, p := verify(b3, k1.pub, sig3); err == nil || p != nil {
+		e.viol("block-verify-accepts-wrong-key:"+kind, fmt.Sprintf("the object's own stored signature verifies under another validator's key (panic=%v)", p), w(map[string]any{"sig": hx(sig3)}))
+	}
+	n++
+	if err, p := verify(b3, k1.pub, sig1); err != nil || p != nil {
+		e.viol("block-verify-rejects-own-signature:"+kind, fmt.Sprintf("another validator's valid signature is rejected by a locally signed object: err=%v panic=%v", err, p), w(map[string]any{"sig": hx(sig1)}))
+	}
+	n++
+	if err, p := verify(b3, k2.pub, sig1); err == nil || p != nil {
+		e.viol("block-verify-accepts-wrong-key:"+kind, fmt.Sprintf("Verify under another key succeeds on a locally signed object (panic=%v)", p), w(map[string]any{"sig": hx(sig1)}))
+	}
 	n++
 	bad := append([]byte(nil), sig1...)
 	flipBit(rng, bad)
